@@ -34,7 +34,20 @@ compared, the error returned. -/
 theorem verify_covers_all :
     verifyDelegate = "verifyCollectionFragments" ∧ verifyRangesGraphs = true ∧ verifyRangesFiles = true ∧
     verifyNodeIntegrity = true ∧ verifyEdgeIntegrity = true ∧ checksumGuardReturns = true ∧
-    checksumComparesSha = true ∧ checksumComparesBytes = true := by decide
+    checksumComparesSha = true ∧ checksumComparesBytes = true ∧
+    -- the duplicate-id / endpoint resolver is created inside the loop over graphs: `LoadEnv.init` per graph
+    -- (`preflight_is_per_graph`); one resolver shared by all graphs (however it is reset) changes this fact
+    resolverScope = "per-graph" := by decide
+
+/-- Model `validateExtracted`: in `validateExtractedCollection` the checksum guard sits in the loop over ALL
+manifest file entries (graphs × files), looks the tracked file up under `fileEntry.Path` without a comma-ok
+escape, nothing in that loop can skip an entry (`continue` / `break`), and the guard compares the manifest's
+digest and size with the tracked ones and returns the error (`extracted_collection_verified`). -/
+theorem extracted_validation_keys :
+    extractedRange = "nextManifest.Graphs>graphEntry.Files" ∧ extractedKey = "fileEntry.Path" ∧
+    extractedSkips = false ∧
+    extractedArgs = ["absolutePath", "fileEntry.SHA256", "fileEntry.CompressedBytes", "actual.sha256", "actual.compressedBytes"] := by
+  decide
 
 /-- Model `verifyFrag` / `Man.validate`: every comparison of the verification code is the one the model
 makes. `verifyFrag` refuses when `recs.length ≠ f.count`, `b.length ≠ f.cbytes`, `hash b ≠ f.sha`: in the
